@@ -383,9 +383,19 @@ def _run_server(case):
             name = op[0]
             labels.append('op:' + name)
             if name == 'slaves':
-                got = sorted(ctx.slaves())
+                lst = ctx.slaves()
+                got = sorted(lst)
                 if not single and got != sorted(model):
                     discs.append(Disc('slaves', 'slaves() = %r, registered %r' % (got, sorted(model))))
+                    break
+                # the list is the caller's (the server front-ends append the broadcast address to it): changing it registers nothing
+                try:
+                    lst.append(0)
+                    lst.append(251)
+                except AttributeError:
+                    pass
+                if not single and sorted(ctx.slaves()) != sorted(model):
+                    discs.append(Disc('registry', 'appending to the list returned by slaves() changed the registered ids to %r (model %r)' % (sorted(ctx.slaves()), sorted(model))))
                     break
                 continue
             i = op[1]
